@@ -36,7 +36,7 @@ ASSUMPTIONS = [
 ]
 SETTINGS: Dict[str, Dict[str, Any]] = {
     "quick": {"inputs": 5, "budget_s": 100, "minimums": {"cli_runs": 500, "nontrivial": 400, "inverted_cut_runs": 20, "runs_with_config_method_schedule": 20, "runs_restricted_to_one_asset": 15}, "required_tags": {"tag_country": list(COUNTRIES), "tag_filter": ["none", "from", "to", "from+to"]}},
-    "thorough": {"inputs": 32, "budget_s": 480, "minimums": {"cli_runs": 3000, "nontrivial": 2500, "inverted_cut_runs": 150, "runs_with_config_method_schedule": 150}, "required_tags": {"tag_country": list(COUNTRIES), "tag_filter": ["none", "from", "to", "from+to"]}},
+    "thorough": {"inputs": 32, "budget_s": 480, "minimums": {"cli_runs": 1800, "nontrivial": 1500, "inverted_cut_runs": 90, "runs_with_config_method_schedule": 90}, "required_tags": {"tag_country": list(COUNTRIES), "tag_filter": ["none", "from", "to", "from+to"]}},
 }
 SHAPES = ["all-types", "inverted-dates", "same-instant-transfer-then-sale", "many-lots+sold-in-thirds", "multi-asset-sparse", "fully-sold+income-only", "single-asset", "multi-asset", "sparse-years", "mixed-offsets"]
 
